@@ -316,4 +316,49 @@ theorem overlaysLoop_eq (ev : Env → ε → JVal) (env : Env) : ∀ (steps : Li
       simp only [hk', Bool.false_eq_true, if_false, Bool.not_false, if_true, List.foldl_cons]
       rw [stepApply_eq ev env cur s hs]
       exact overlaysLoop_eq ev env rest hr _
+
+/-! ### the loop with the PermFail exit -/
+
+theorem skipped_eq_of_decision (ev : Env → ε → JVal) (env : Env) (s : Step ε) (b : Bool)
+    (h : skipDecision ev env s = some b) : skipped ev env s = b := by
+  unfold skipDecision at h
+  unfold skipped
+  cases hs : s.skipIf with
+  | none => simp [hs] at h ⊢; exact h
+  | some e =>
+    simp only [hs] at h ⊢
+    cases hv : ev env e <;> simp [hv] at h ⊢
+    exact h
+
+theorem overlaysLoopE_decided (ev : Env → ε → JVal) (env : Env) : ∀ (steps : List (Step ε)),
+    (∀ s ∈ steps, skipDecision ev env s ≠ none) → ∀ cur,
+    overlaysLoopE ev env steps cur = some (overlaysLoop ev env steps cur)
+  | [], _, cur => rfl
+  | s :: rest, h, cur => by
+    have hs := h s (by simp)
+    have hr : ∀ s' ∈ rest, skipDecision ev env s' ≠ none := fun s' hm => h s' (by simp [hm])
+    simp only [overlaysLoopE, overlaysLoop]
+    cases hd : skipDecision ev env s with
+    | none => exact absurd hd hs
+    | some b =>
+      have := skipped_eq_of_decision ev env s b hd
+      cases b
+      · simp only [this, Bool.false_eq_true, if_false]; exact overlaysLoopE_decided ev env rest hr _
+      · simp only [this, if_true]; exact overlaysLoopE_decided ev env rest hr _
+
+theorem overlaysLoopE_undecided (ev : Env → ε → JVal) (env : Env) : ∀ (steps : List (Step ε)),
+    (∃ s ∈ steps, skipDecision ev env s = none) → ∀ cur, overlaysLoopE ev env steps cur = none
+  | [], h, _ => by obtain ⟨s, hm, _⟩ := h; simp at hm
+  | s :: rest, h, cur => by
+    simp only [overlaysLoopE]
+    cases hd : skipDecision ev env s with
+    | none => rfl
+    | some b =>
+      have hr : ∃ s' ∈ rest, skipDecision ev env s' = none := by
+        obtain ⟨s', hm, hn⟩ := h
+        simp only [List.mem_cons] at hm
+        rcases hm with e | hm
+        · subst e; rw [hd] at hn; cases hn
+        · exact ⟨s', hm, hn⟩
+      cases b <;> exact overlaysLoopE_undecided ev env rest hr _
 end Koreo.Overlay
